@@ -254,6 +254,10 @@ impl File {
     { unimplemented!() }
     #[verifier::external_body]
     fn sync_all(&self) -> (r: Result<(), IoError>) { unimplemented!() }
+    #[verifier::external_body]
+    fn metadata(&self) -> (r: Result<Metadata, IoError>)
+        ensures r matches Ok(m) ==> m.len_spec() == self.content().len(),
+    { unimplemented!() }
 }
 // utils::fatal wrapper of File::create
 #[verifier::external_body]
